@@ -109,7 +109,9 @@ def parse_entities(fmt_file, data):
             junk.append(e.all)
         else:
             k = e.key
-            ents.append([list(k) if isinstance(k, tuple) else k, e.raw_val, e.all])
+            sp = getattr(e, "span", None)
+            sp = [sp[0], sp[1]] if sp and isinstance(sp[0], int) and isinstance(sp[1], int) else None
+            ents.append([list(k) if isinstance(k, tuple) else k, e.raw_val, e.all, sp])
     return {"entities": ents, "junk": junk}
 
 
